@@ -16,20 +16,23 @@ from ..engine.absint import AV, State, const, binop
 
 
 # =====================================================================================================  C12 LZSS
-def _check_backref(r, s2, dec, out, form, key, rel_c, decl, ref_block, params, ln, offend, c_walk, c_strip, c_name):
+def _check_backref(r, s2, dec, out, form, key, rel_c, decl, ref_block, params, ln, offend, c_walk, c_strip, c_name, outpos):
     path = ''.join('T' if t[1] else 'F' for t in dec.trace)
     if dec.consumed != len(out):
         r.violate(key + ':consumed', rel_c, decl[0].line,
                   '%s token: encoder emits %d byte(s) but the decoder branch %s consumes %d (a format marker bit tested by the decoder is not fixed by the encoder, or the forms disagree)' % (form, len(out), path, dec.consumed))
         return
     mem = [c for c in dec.calls if c[0] in ('memcpy', 'memmove', '__builtin_memcpy')]
-    if not mem and not getattr(dec, 'loops', 0):
+    # copies this domain does not see: a copy loop, a routine that is called, explicit stores through the output pointer - their sizes and extents are decided by C12-EXTENT
+    opaque = getattr(dec, 'loops', 0) or any(c[0] not in _COPY and c[0] not in _HINTS for c in dec.calls) or \
+        any(n.get('kind') == 'BinaryOperator' and n.get('opcode') == '=' and c_strip(n['inner'][0]).get('kind') in ('ArraySubscriptExpr', 'UnaryOperator') for n in c_walk(ref_block))
+    if not mem and not opaque:
         r.violate(key + ':no-copy', rel_c, decl[0].line, 'decoder back-reference block performs no memcpy on branch %s' % path)
         return
-    if getattr(dec, 'loops', 0):
-        mem = []        # a copy loop: sizes and extents of what it copies are decided by C12-EXTENT (a size that depends on the loop counter is unknown here)
+    if opaque:
+        mem = []        # a copy loop / a copy routine that is called: sizes and extents of what it copies are decided by C12-EXTENT (a size that depends on the loop counter is unknown here)
     # the amount the output position advances by is the decoded match length
-    adv = [(v, a) for v, lst in dec.advances.items() for (op, a, nm) in lst if op == '+' and v.startswith('out')]
+    adv = [(v, a) for v, lst in dec.advances.items() for (op, a, nm) in lst if op == '+' and v == outpos]
     mav = adv[-1][1] if adv else mem[-1][1][2] if mem else None
     mlin = s2.root(s2.as_lin(mav) or mav.lin) if mav is not None else None
     if mlin != (ln, 0):
@@ -51,18 +54,21 @@ def _check_backref(r, s2, dec, out, form, key, rel_c, decl, ref_block, params, l
             cands.append(c_strip(n['inner'][-1]))
         if n.get('kind') == 'CallExpr' and c_name(n['inner'][0]) in ('memcpy', 'memmove', '__builtin_memcpy') and len(n['inner']) > 2:
             cands += [c_strip(x) for x in c_walk(n['inner'][2]) if x.get('kind') == 'BinaryOperator' and x.get('opcode') == '-']
+    ends = []
     for init in cands:
         names = [c_name(x) for x in c_walk(init) if c_name(x)]
         if init.get('opcode') == '-' and mnames & set(names):
-            others = [x for x in names if x not in mnames and x in dec.env and x not in params and not x.startswith('out')]
-            if others:
-                endv = others[0]
-    if endv is None:
+            # what is subtracted besides the match length: the end offset (the minuend - output position or a pointer into the output - has no value in this domain)
+            ends += [x for x in names if x not in mnames and x in dec.env and x not in params and x != outpos and x not in ends]
+    if not ends:
         r.violate(key + ':no-end-offset', rel_c, decl[0].line, 'decoder: reference position is not computed as out_pos - end_offset - match_length')
         return
-    eav = dec.env[endv]
-    elin = s2.root(s2.as_lin(eav) or eav.lin)
-    if elin != s2.root((offend, 0)):
+    lins = []
+    for endv in ends:
+        eav = dec.env[endv]
+        lins.append((s2.root(s2.as_lin(eav) or eav.lin), eav))
+    if not any(elin == s2.root((offend, 0)) for elin, _ in lins):
+        elin, eav = next(((l, a) for l, a in lins if l is not None), lins[0])
         r.violate(key + ':end-offset', rel_c, decl[0].line,
                   '%s token: the decoder reconstructs end offset %s but the encoder stored %s — offset bit fields / bias / range guard disagree (%r)' % (form, elin, s2.root((offend, 0)), s2.norm(eav)))
 
@@ -208,6 +214,12 @@ def lzss_rules(ctx):
         raise AnalysisError('decoder: token dispatch `if (flags & 1) ... else ...` not found')
     lit_block, ref_block = tok_if['inner'][1], tok_if['inner'][2]
 
+    # the output position variable of the decoder: the one the stores of a token are relative to (from the symbolic execution of the token step, not from its name)
+    try:
+        outpos = _footprint(ctx)[3]['outpos']
+    except Unmodellable as x:
+        raise AnalysisError('C12-BITS cannot model the token step of the decoder: %s' % x)
+
     r = Rule('C12-BITS', 'known-bits/provenance abstract interpretation: for every token form the compressor (LZSS.py) can emit, the decompressor (__pyx_lzss_decompress) '
              'takes the matching branch, consumes exactly the emitted bytes and reconstructs the same end offset and match length; emitted values fit a byte', floor=4)
     nforms = 0
@@ -237,7 +249,7 @@ def lzss_rules(ctx):
         finals = [d for d in finals if not d.returned_early] or finals
         forked_on_input = [d for d in finals if any(len(t) > 2 and t[2] for t in d.trace)]
         for dec in finals:
-            _check_backref(r, s2, dec, out, form, key, rel_c, decl, ref_block, params, ln, offend, c_walk, c_strip, c_name)
+            _check_backref(r, s2, dec, out, form, key, rel_c, decl, ref_block, params, ln, offend, c_walk, c_strip, c_name, outpos)
     if nforms < 4:
         r.violate('LZSS:forms', rel_py, loop.lineno, 'only %d token forms found in the encoder (expected literal + 3 back-reference encodings)' % nforms)
 
@@ -246,25 +258,20 @@ def lzss_rules(ctx):
               'flag byte shift register agrees (encoder fills from bit 7 shifting right, decoder reads bit 0 shifting right, 8 tokens per flag byte)', floor=3)
     # (1) copy size == output advance: decided by C12-EXTENT (rule_extent: every store of a token against the token's slice of the output and the room left),
     #     which replaced the comparison of the names of the memcpy size and the `+=` operand that stood here (it reported every copy loop / tail copy)
-    # (2) bound test after every token: in the inner while body, the statement after the token if is `if (out_pos >= dst_len) return`
+    # (2) the step returns exactly when the output is full: from the symbolic execution of the token step (token_footprint, clause `stop`: for every token and
+    #     every amount of room left, the path that returns is the one with room == advance) - not from the place and spelling of the test
     r2.inst('decoder:bound-test')
     inner_while = None
     for n in c_walk(body):
-        if n.get('kind') == 'WhileStmt' and any(x is tok_if for x in c_walk(n)):
+        if n.get('kind') in ('WhileStmt', 'ForStmt', 'DoStmt') and any(x is tok_if for x in c_walk(n)):
             inner_while = n
-    stmts = [c for c in inner_while['inner'][1].get('inner', [])] if inner_while else []
-    idx = [i for i, x in enumerate(stmts) if x is tok_if]
-    good = False
-    if idx and idx[0] + 1 < len(stmts):
-        nxt = stmts[idx[0] + 1]
-        if nxt.get('kind') == 'IfStmt':
-            cond = c_strip(nxt['inner'][0])
-            names = [c_name(x) for x in c_walk(cond) if c_name(x)]
-            has_ret = any(x.get('kind') == 'ReturnStmt' for x in c_walk(nxt['inner'][1]))
-            good = cond.get('opcode') == '>=' and params[2] in names and has_ret
-    if not good:
+    try:
+        stops = [msg for clause, kind, msg in _footprint(ctx)[1] if clause == 'stop']
+    except Unmodellable as x:
+        raise AnalysisError('C12-STRUCT cannot model the token step of the decoder: %s' % x)
+    if stops:
         r2.violate('StringTools.__pyx_lzss_decompress:bound-test', rel_c, decl[0].line,
-                   'the decoder does not test the output position against %s immediately after each token: padding tokens of the last flag byte would be decoded past the output buffer' % params[2])
+                   'the decoder does not stop exactly when the output position reaches %s: %s' % (params[2], stops[0]))
     # (3) caller compares result with compressed_length
     r2.inst('caller:length-check')
     cal = [d for d in ctx.cat.decls.get('__Pyx_DecompressString_LZSS', []) if d.kind == 'func']
@@ -687,50 +694,20 @@ def rule_literal(ctx):
     fast = _decoder_ast(ctx)
     body = [c2 for c2 in fast['inner'] if c2.get('kind') == 'CompoundStmt'][0]
     params = [c2['name'] for c2 in fast['inner'] if c2.get('kind') == 'ParmVarDecl']
-    tok_if = None
-    for n in c_walk(body):
-        if n.get('kind') == 'IfStmt':
-            cond = c_strip(n['inner'][0])
-            if cond.get('kind') == 'BinaryOperator' and cond.get('opcode') == '&' and c_strip(cond['inner'][1]).get('value') == '1':
-                tok_if = n
-    if tok_if is None:
-        raise AnalysisError('decoder: token dispatch not found')
-    lit_block = tok_if['inner'][1]
-    # output position variable: compared with the output size parameter
-    outv = None
-    for n in c_walk(body):
-        if n.get('kind') == 'BinaryOperator' and n.get('opcode') in ('>=', '>', '==', '<') and any(c_name(x) == params[2] for x in c_walk(n)):
-            names = [c_name(x) for x in c_walk(n) if c_name(x) and c_name(x) != params[2]]
-            if names:
-                outv = names[0]
-    if outv is None:
-        raise AnalysisError('decoder: output position variable not identified')
-    incs = 0
-    for n in c_walk(lit_block):
-        if n.get('kind') == 'UnaryOperator' and n.get('opcode') == '++' and c_name(n['inner'][0]) == outv:
-            incs += 1
-        if n.get('kind') == 'CompoundAssignOperator' and n.get('opcode') == '+=' and c_name(n['inner'][0]) == outv and c_strip(n['inner'][1]).get('value') == '1':
-            incs += 1
-    stores = [n for n in c_walk(lit_block) if n.get('kind') == 'BinaryOperator' and n.get('opcode') == '=' and c_strip(n['inner'][0]).get('kind') == 'ArraySubscriptExpr'
-              and c_name(c_strip(n['inner'][0])['inner'][0]) == params[1]]
-    r.inst('decoder:literal', sample='literal branch: %d store(s) into %s, %s advanced %d time(s)' % (len(stores), params[1], outv, incs))
-    # the value handed back to the caller is the input position (the caller compares it with the compressed length)
-    inv = set()
-    for n in c_walk(body):
-        if n.get('kind') == 'ArraySubscriptExpr' and c_name(c_strip(n['inner'][0])) == params[0]:
-            inv |= {c_name(x) for x in c_walk(n['inner'][1]) if c_name(x)}
-    rets = [n for n in c_walk(body) if n.get('kind') == 'ReturnStmt' and n.get('inner')]
-    r.inst('decoder:return', sample='returns %s ; input indexed by %s' % ([c_name(c_strip(x['inner'][0])) for x in rets], sorted(inv)))
-    # what a literal step does to the output: from the symbolic execution of the token step (see C12-EXTENT), not from the spelling of the store
+    # what a literal step does to the output and what the decoder returns: from the symbolic execution of the token step (see C12-EXTENT), not from the spelling of the code
     try:
-        paths = _footprint(ctx)[2]
+        fp = _footprint(ctx)
     except Unmodellable as x:
         raise AnalysisError('C12-LIT cannot model the token step of the decoder: %s' % x)
-    for clause, kind, msg in _footprint(ctx)[1]:
+    outv, inv = fp[3]['outpos'], fp[3]['inpos']
+    r.inst('decoder:return', sample='the step returns on %d path(s); input indexed by %s' % (sum(1 for p in fp[2] if p[3] == RET), inv))
+    paths = fp[2]
+    for clause, kind, msg in fp[1]:
         if clause == 'return-value':        # the value returned on the paths the compressor's streams take (an error exit such as `return 0` is not one of them)
             r.violate('StringTools.__pyx_lzss_decompress:return', STC, decl[0].line, msg)
             break
     lits = [p for p in paths if p[0] == 'literal']
+    r.inst('decoder:literal', sample='literal step: %s' % '; '.join(sorted({'advance %r, %s' % (adv, ', '.join('%s of %r at +%r' % (what, n, rel) for rel, n, src, what in ws)) for kind, adv, ws, ex in lits})))
     if not lits:
         r.violate('StringTools.__pyx_lzss_decompress:literal', STC, decl[0].line, 'no path of the token step stores an input byte into the output: literal tokens are not decoded')
     for kind, adv, ws, ex in lits:
@@ -1021,9 +998,10 @@ FALL, RET, BRK, CONT = 'fall', 'return', 'break', 'continue'
 class TokenExec:
     """symbolic execution of one step of the decoder's token loop"""
 
-    def __init__(self, fdecl):
+    def __init__(self, fdecl, helpers=None):
         from ..engine.absint import c_walk
         self.fdecl = fdecl
+        self.helpers = helpers or {}        # name -> FunctionDecl of routines of the same file, inlined where they are called as a statement
         self.params = [c['name'] for c in fdecl['inner'] if c.get('kind') == 'ParmVarDecl']
         if len(self.params) != 3:
             raise AnalysisError('decoder: expected the parameters (input, output, output size), found %s' % self.params)
@@ -1155,6 +1133,8 @@ class TokenExec:
     def load(self, st, addr, size=1):
         addr = st.simp(addr)
         if addr.t.get('S') == 1 and 'D' not in addr.t:
+            if size != 1:
+                raise Unmodellable('the input is read %d bytes at a time' % size)
             off = addr.add(Lin(0, {'S': 1}), -1)
             vs = [s for s in off.t if isinstance(s, tuple) and s[0] == 'V']
             if len(vs) != 1 or off.t[vs[0]] != 1 or len(off.t) != 1:
@@ -1194,7 +1174,7 @@ class TokenExec:
                     s2 = s2['inner'][-1]
                 if s2.get('kind') == 'DeclRefExpr':
                     return self.var(st, s2)
-                return self.load(st, self.address(st, s2))
+                return self.load(st, self.address(st, s2), self.width(n))
             v = self.ev(st, sub)
             if ck == 'IntegralCast':
                 return self.cast(st, v, n)
@@ -1217,7 +1197,7 @@ class TokenExec:
                 st.env[nm] = old.add(Lin(1 if op == '++' else -1))
                 return old if n.get('isPostfix') else st.env[nm]
             if op == '*':
-                return self.load(st, self.ev(st, sub))
+                return self.load(st, self.ev(st, sub), self.width(n))
             if op == '-':
                 return self.ev(st, sub).scale(-1)
             if op == '+':
@@ -1305,7 +1285,14 @@ class TokenExec:
             source = ('in', v)
         else:
             source = ('value', None)
-        self.store(st, self.address(st, l), Lin(1), source, 'store')
+        self.store(st, self.address(st, l), Lin(self.width(l)), source, 'store')
+
+    def width(self, n):
+        """size in bytes of the object an lvalue expression denotes (a store through a cast pointer writes the whole word)"""
+        for t in self.ctype(n):
+            if t in _UNSIGNED or t in _SIGNED:
+                return (_UNSIGNED.get(t) or _SIGNED.get(t)) // 8
+        raise Unmodellable('a store to an object of type %s' % self.ctype(n)[1])
 
     # ---------------------------------------------------------------- conditions
     def cond(self, st, n, in_loop=False):
@@ -1464,8 +1451,37 @@ class TokenExec:
             return self.loop(n, st)
         if k in ('GotoStmt', 'SwitchStmt', 'LabelStmt'):
             raise Unmodellable('%s inside the token step' % k)
+        from ..engine.absint import c_strip, c_name
+        call = c_strip(n)
+        if call.get('kind') == 'CallExpr' and c_name(call['inner'][0]) in self.helpers:
+            return self.inline(self.helpers[c_name(call['inner'][0])], call['inner'][1:], st)
         self.ev(st, n)
         return [(st, FALL)]
+
+    def inline(self, fdecl, args, st, depth=0):
+        """a call statement of a routine whose body is known: executed in place (parameters bound to the argument values, own scope)"""
+        if getattr(self, 'inlining', 0) > 4:
+            raise Unmodellable('calls nested more than 4 deep')
+        params = [c['name'] for c in fdecl['inner'] if c.get('kind') == 'ParmVarDecl']
+        body = [c for c in fdecl['inner'] if c.get('kind') == 'CompoundStmt']
+        if len(params) != len(args) or not body:
+            raise Unmodellable('call of %s() with %d arguments' % (fdecl.get('name'), len(args)))
+        vals = [self.ev(st, a) for a in args]
+        saved, saved_ret = st.env, (st.returned, st.retval)
+        st.env = dict(zip(params, vals))
+        self.inlining = getattr(self, 'inlining', 0) + 1
+        try:
+            outs = self.stmt(body[0], st)
+        finally:
+            self.inlining -= 1
+        res = []
+        for s2, status in outs:
+            if status not in (FALL, RET):
+                raise Unmodellable('%s outside a loop in %s()' % (status, fdecl.get('name')))
+            s2.env = dict(saved)
+            s2.returned, s2.retval = saved_ret
+            res.append((s2, FALL))
+        return res
 
     def loop(self, n, st):
         init, cond, inc, body, post_test = self.loop_parts(n)
@@ -1559,7 +1575,17 @@ def _decoder_asts(ctx):
         if not decl:
             raise AnalysisError('%s not found' % _DECODER)
         head = 'static size_t %s(%s) ' % (_DECODER, ', '.join(decl[0].params))
-        text = ('#include <stdint.h>\n#include <string.h>\n#include <stddef.h>\n#define CYTHON_UNUSED\n#define CYTHON_SMALL_CODE\n' + head + decl[0].body + '\n' + _PC_DECODER + _OK_DECODER)
+        # helpers of the same utility file that the decoder calls (a copy routine split off): parsed along under a name the AST filter lets through, inlined by TokenExec
+        helpers, todo, pre = [], [decl[0].body], ''
+        while todo:
+            for nm in re.findall(r'\b([A-Za-z_]\w*)\s*\(', todo.pop()):
+                hd = [d for d in ctx.cat.decls.get(nm, []) if d.kind == 'func' and d.body and d.file == decl[0].file]
+                if hd and nm != _DECODER and nm not in helpers and len(helpers) < 8:
+                    helpers.append(nm)
+                    todo.append(hd[0].body)
+                    pre = '#define %s %s__H_%s\nstatic %s %s(%s) %s\n' % (nm, _DECODER, nm, re.sub(r'\b(static|CYTHON_\w+|inline)\b', '', hd[0].ret or 'void').strip() or 'void',
+                                                                          nm, ', '.join(hd[0].params), hd[0].body) + pre
+        text = ('#include <stdint.h>\n#include <string.h>\n#include <stddef.h>\n#define CYTHON_UNUSED\n#define CYTHON_SMALL_CODE\n#define CYTHON_INLINE\n' + pre + head + decl[0].body + '\n' + _PC_DECODER + _OK_DECODER)
         with tempfile.TemporaryDirectory(prefix='sa_clang_') as d:
             p = os.path.join(d, 't.c')
             with open(p, 'w') as f:
@@ -1622,10 +1648,10 @@ def _r_range(rcons, asg, adv):
 _FLIP = {'<': '>', '<=': '>=', '>': '<', '>=': '<=', '==': '==', '!=': '!='}
 
 
-def token_footprint(fdecl, paths=None):
+def token_footprint(fdecl, paths=None, names=None, helpers=None):
     """-> (classes, problems): classes = {class key: set of clauses evaluated}; problems = [(clause, token kind, message)] (first witness per clause and kind).
     With paths=[]: one (kind, advance, stores relative to the output position, exit) is appended per path."""
-    ex = TokenExec(fdecl)
+    ex = TokenExec(fdecl, helpers)
     finals = ex.run()
     if not finals:
         raise Unmodellable('the token step has no path')
@@ -1643,6 +1669,8 @@ def token_footprint(fdecl, paths=None):
     P = next(iter(psyms))
     VP = Lin(0, {P: 1})
     Q = getattr(ex, 'inpos', None)
+    if names is not None:
+        names.update(outpos=P[1], inpos=Q[1] if Q else None)
     classes, problems, seen = {}, [], set()
 
     def problem(clause, kind, msg):
@@ -1824,12 +1852,16 @@ def token_footprint(fdecl, paths=None):
 def _footprint(ctx):
     """(classes, problems, paths) of the shipped decoder, or the Unmodellable that stopped the symbolic execution"""
     def build():
-        paths = []
+        paths, names = [], {}
         try:
-            classes, problems = token_footprint(_decoder_ast(ctx), paths)
+            asts = _decoder_asts(ctx)
+            helpers = {k.split('__H_', 1)[1]: v for k, v in asts.items() if '__H_' in k}
+            for k, v in list(helpers.items()):
+                helpers[_DECODER + '__H_' + k] = v       # clang reports the name after macro replacement
+            classes, problems = token_footprint(asts[_DECODER], paths, names, helpers)
         except Unmodellable as x:
             return x
-        return classes, problems, paths
+        return classes, problems, paths, names
     res = ctx.memo('sC12.footprint', build)
     if isinstance(res, Unmodellable):
         raise res
@@ -1839,11 +1871,11 @@ def _footprint(ctx):
 def rule_extent(ctx):
     r = Rule('C12-EXTENT', 'memory footprint of one decoder token, for every token the format can express and every amount of room left in the output: stores stay inside the '
              "token's slice of the output or are bounded by dst_len through the conditions that dominate them, they cover the slice, copies read below their destination with one "
-             'displacement, and the step returns exactly when the output is full (symbolic execution of the token step on clang\'s AST; copy loops run for every value of the length bytes)', floor=30)
+             'displacement, only input bytes that are consumed are read (symbolic execution of the token step on clang\'s AST; copy loops run for every value of the length bytes)', floor=48)
     asts = _decoder_asts(ctx)
     decl = [d for d in ctx.cat.decls.get(_DECODER, []) if d.kind == 'func']
     try:
-        classes, problems, _ = _footprint(ctx)
+        classes, problems = _footprint(ctx)[:2]
     except Unmodellable as x:
         raise AnalysisError('C12-EXTENT cannot model the token step of %s: %s' % (_DECODER, x))
     n = 0
@@ -1855,7 +1887,7 @@ def rule_extent(ctx):
     if kinds != {'literal', 'back-reference'}:
         raise AnalysisError('C12-EXTENT: the token step of %s has paths for %s only (expected literal and back-reference tokens)' % (_DECODER, sorted(kinds)))
     for clause, kind, msg in problems:
-        if clause != 'return-value':        # reported by C12-LIT
+        if clause not in ('return-value', 'stop'):        # reported by C12-LIT / C12-STRUCT
             r.violate('StringTools.%s:%s:%s' % (_DECODER, clause, kind), STC, decl[0].line, '%s: %s' % (_DECODER, msg))
     # positive control: a "wild copy" guarded only for the last token is reported, one whose guards leave room for the surplus (and keep source and destination apart) is not
     try:
